@@ -125,6 +125,7 @@ type effAnalysis struct {
 	changed  bool
 	freeBind map[*ssa.FreeVar]ssa.Value
 	nilRet   bool
+	inlined  map[*ssa.Function]bool
 }
 
 func (a *effAnalysis) local(v ssa.Value, label string) *effObj {
@@ -503,6 +504,27 @@ func (a *effAnalysis) call(ins ssa.Instruction, c *ssa.CallCommon, res ssa.Value
 		if top.Parent() != nil {
 			return // closures are analysed within their family
 		}
+		if a.inlineCallee(callee, c) {
+			// the callee analysed as part of this family (context-insensitively): its parameters receive what the
+			// arguments point to, its stores are recorded on exactly the objects they reach
+			for i, p := range callee.Params {
+				if i < len(c.Args) && refType(p.Type()) {
+					a.addAll(p, a.pts[c.Args[i]])
+				}
+			}
+			if res != nil && refType(res.Type()) {
+				instrs(callee, func(in ssa.Instruction) {
+					if rt, ok := in.(*ssa.Return); ok {
+						for _, v := range retOperands(rt) {
+							if refType(v.Type()) {
+								a.addAll(res, a.pts[v])
+							}
+						}
+					}
+				})
+			}
+			return
+		}
 		s := a.e.summarize(top)
 		for i, evs := range s.writes {
 			if i < len(c.Args) {
@@ -578,6 +600,65 @@ func (a *effAnalysis) call(ins ssa.Instruction, c *ssa.CallCommon, res ssa.Value
 		return
 	}
 	a.noteUnknown(name, c.Args, nil)
+}
+
+// inlineCallee: a module function that receives a pointer to an object created in this family (a local struct that
+// wraps the state of a loop: a stack, a buffer with its cursor) is analysed with the family rather than through
+// its summary — a summary speaks of everything reachable from a parameter at once, and would count an append to
+// the wrapper's own slice as a write to whatever the slice's elements point to.
+func (a *effAnalysis) inlineCallee(callee *ssa.Function, c *ssa.CallCommon) bool {
+	if a.inlined[callee] {
+		return true
+	}
+	if callee == a.root || a.e.inProgress[callee] || len(a.inlined) >= 24 {
+		return false
+	}
+	wraps := false
+	for i, p := range callee.Params {
+		if i >= len(c.Args) {
+			break
+		}
+		pt, ok := p.Type().Underlying().(*types.Pointer)
+		if !ok {
+			continue
+		}
+		if _, ok := pt.Elem().Underlying().(*types.Struct); !ok {
+			continue
+		}
+		objs := a.pts[c.Args[i]]
+		if len(objs) == 0 {
+			continue
+		}
+		all := true
+		for o := range objs {
+			if o.kind != okLocal {
+				all = false
+			}
+		}
+		if all {
+			wraps = true
+		}
+	}
+	if !wraps {
+		return false
+	}
+	if a.inlined == nil {
+		a.inlined = map[*ssa.Function]bool{}
+	}
+	a.inlined[callee] = true
+	for _, fn := range family(callee) {
+		a.fns = append(a.fns, fn)
+		instrs(fn, func(in ssa.Instruction) {
+			if mc, ok := in.(*ssa.MakeClosure); ok {
+				cl := mc.Fn.(*ssa.Function)
+				for i, fv := range cl.FreeVars {
+					a.freeBind[fv] = mc.Bindings[i]
+				}
+			}
+		})
+	}
+	a.changed = true
+	return true
 }
 
 func (a *effAnalysis) noteUnknown(name string, args []ssa.Value, recv ssa.Value) {
